@@ -124,7 +124,7 @@ def reply_ops(rng, prog, want_modes=False):
             for trial in range(2):
                 gas = rng.choice([0, 7, 123456])
                 nev = rng.choice([0, 1, 3])
-                nmsgr = rng.choice([0, 2])
+                nmsgr = rng.choice([0, 1, 1, 2])
                 height = rng.choice([1, 999])
                 seed = rng.choice(["sd", "q"])
                 errtext = rng.choice(["boom", "out of gas", "x y"])
